@@ -36,6 +36,7 @@ theorem c08_on_source (ls : List Label) (s : PSt) (h : run procSem init ls = som
 
 
 
+
 -- BEGIN PINS (written by bin/mkpins; do not edit by hand)
 /-- the Go functions this property's model and obligations were written against have exactly the
 pinned skeletons (SHA-256 prefix of the atom list) -/
